@@ -287,3 +287,21 @@ func FileWriteString(f *os.File, str string, site string) (int, error) {
 	ioStall(site)
 	return f.WriteString(str)
 }
+
+// SortPrinted sorts *slicePtr (a slice of map keys of any printable type) by the printed form of its elements.
+func SortPrinted(slicePtr interface{}) {
+	v := reflect.ValueOf(slicePtr).Elem()
+	n := v.Len()
+	keys := make([]string, n)
+	idx := make([]int, n)
+	for i := 0; i < n; i++ {
+		keys[i] = fmt.Sprintf("%v", v.Index(i).Interface())
+		idx[i] = i
+	}
+	sort.SliceStable(idx, func(a, b int) bool { return keys[idx[a]] < keys[idx[b]] })
+	out := reflect.MakeSlice(v.Type(), n, n)
+	for i, j := range idx {
+		out.Index(i).Set(v.Index(j))
+	}
+	v.Set(out)
+}
